@@ -27,7 +27,10 @@ def observed_out(o):
     return k or "?"
 
 
-def make_files(base, cfgid, imports, kind):
+def make_files(base, cfgid, imports, kind, bundled=False):
+    """bundled: the file of each library also holds, before the library's own definition, healthy definitions of all the
+    OTHER library names.  Those are not the libraries of the graph: (import (lj)) is decided by lj's own file (or its
+    absence), whatever files were read before."""
     d = os.path.join(base, "cfg%s" % cfgid, "prog")
     os.makedirs(d, exist_ok=True)
     for n, (imp, k) in enumerate(zip(imports, kind), start=1):
@@ -39,6 +42,10 @@ def make_files(base, cfgid, imports, kind):
                 f.write(b"(define-library (l%d) (export v) (begin (define v \"\xff\xfe\")))\n" % n)
         else:
             with open(p, "w") as f:
+                if bundled:
+                    for j in range(1, len(kind) + 1):
+                        if j != n:
+                            f.write("(define-library (l%d)\n  (import (scheme base))\n  (export v%d)\n  (begin (define v%d 'decoy)))\n" % (j, j, j))
                 f.write(lib_source(n, imp, k))
     return d
 
@@ -113,15 +120,15 @@ def compare_vec(ctx, v, mode, res, first):
 
 def run_vectors(ctx, vecs, mode, tag):
     filebase = os.path.join(ctx.dir, "files-" + tag)
-    if mode == "files":
+    if mode in ("files", "bundled"):
         shutil.rmtree(filebase, ignore_errors=True)
     jobs, firsts, dirs = [], [], {}
     for i, v in enumerate(vecs):
         fd = None
-        if mode == "files":
+        if mode in ("files", "bundled"):
             key = canon([v["imports"], v["kind"]])
             if key not in dirs:
-                dirs[key] = make_files(filebase, len(dirs), v["imports"], v["kind"])
+                dirs[key] = make_files(filebase, len(dirs), v["imports"], v["kind"], bundled=(mode == "bundled"))
             fd = dirs[key]
         j, first = session(i, v["imports"], v["kind"], [h["lib"] for h in v["history"]], mode, fd)
         jobs.append(j); firsts.append(first)
@@ -129,7 +136,7 @@ def run_vectors(ctx, vecs, mode, tag):
     for v, res, first in zip(vecs, results, firsts):
         compare_vec(ctx, v, mode, res, first)
         ctx.count(validated=1)
-    if mode == "files":
+    if mode in ("files", "bundled"):
         shutil.rmtree(filebase, ignore_errors=True)
 
 
@@ -187,7 +194,10 @@ def run(ctx):
     sample = rng.sample(rest, min(len(rest), 2000 if tier == "quick" else 20000))
     fv = filev + small + sample
     run_vectors(ctx, fv, "files", "replay-files")
-    ctx.stage("replay", vectors=len(vecs), registered=len(reg), files=len(fv), exhaustive=True)
+    # the same graphs with every library file also holding (ignored) definitions of the other names
+    bv = [v for v in fv if len(v["history"]) >= 2][: (3000 if tier == "quick" else 30000)]
+    run_vectors(ctx, bv, "bundled", "replay-bundled")
+    ctx.stage("replay", vectors=len(vecs), registered=len(reg), files=len(fv), bundled_files=len(bv), exhaustive=True)
     for v in vecs[:: max(1, len(vecs) // 3)][:3]:
         ctx.sample({"libraries": describe(v["imports"], v["kind"]), "history": v["history"], "allowed": v["cands"]})
     # ---- simulation walks over larger worlds (4 libraries) in thorough
@@ -201,8 +211,8 @@ def run(ctx):
         imports, kind = gen_config(rng, n)
         attempts = [rng.randint(1, n) for _ in range(rng.randint(1, 6))]
         regable = all(k in ("ok", "fault", "missing") for k in kind)
-        mode = "registered" if (regable and rng.random() < 0.5) else "files"
-        fd = make_files(filebase, c, imports, kind) if mode == "files" else None
+        mode = "registered" if (regable and rng.random() < 0.5) else rng.choice(["files", "bundled"])
+        fd = make_files(filebase, c, imports, kind, bundled=(mode == "bundled")) if mode != "registered" else None
         j, first = session(c, imports, kind, attempts, mode, fd)
         confs.append((imports, kind, attempts)); jobs.append(j); firsts.append(first); modes.append(mode)
     results = run_jobs(jobs, ctx.dir, tag="validate", timeout=2400)
@@ -244,7 +254,7 @@ def replay(ctx, case):
     if case.get("stage") == "replay":
         v = case["vec"]
         mode = case["mode"]
-        fd = make_files(os.path.join(ctx.dir, "files-replay"), 0, v["imports"], v["kind"]) if mode == "files" else None
+        fd = make_files(os.path.join(ctx.dir, "files-replay"), 0, v["imports"], v["kind"], bundled=(mode == "bundled")) if mode != "registered" else None
         j, first = session(0, v["imports"], v["kind"], [h["lib"] for h in v["history"]], mode, fd)
         res = run_jobs([j], ctx.dir, tag="replay1")[0]
         log("libraries:", describe(v["imports"], v["kind"]))
@@ -253,7 +263,7 @@ def replay(ctx, case):
         compare_vec(ctx, v, mode, res, first)
     else:
         imports, kind, attempts, mode = case["imports"], case["kind"], case["attempts"], case["mode"]
-        fd = make_files(os.path.join(ctx.dir, "files-replay"), 0, imports, kind) if mode == "files" else None
+        fd = make_files(os.path.join(ctx.dir, "files-replay"), 0, imports, kind, bundled=(mode == "bundled")) if mode != "registered" else None
         j, first = session(0, imports, kind, attempts, mode, fd)
         res = run_jobs([j], ctx.dir, tag="replay1")[0]
         log("libraries:", describe(imports, kind), "attempts:", attempts)
